@@ -2,9 +2,17 @@
     including the first exception: replaying the records written so far from the initial labware contents
     with the CHECKED interpreter ([interp true] of Spec/Robot.v: an A or R step that leaves a well below its
     min_volume, or a D step that takes a well above its max_volume, is refused) never fails, and no single
-    A / D step exceeds the worklist's max_volume.  A pipetting step that the volume checks refuse is never
+    A / D / R step exceeds the worklist's max_volume.  A pipetting step that the volume checks refuse is never
     present in the worklist; without auto_split an oversized step raises InvalidOperationError and nothing
-    is emitted.  Statements only; proofs live in Proofs/RefinementProofs.v.
+    is emitted.  Statements only; proofs live in Proofs/RefinementProofs.v and Proofs/SafetyExtraProofs.v.
+
+    KNOWN FINDING F20 (a genuine defect of the library, see [C03_prefix_safe_duplicate_positions_refuted]):
+    the replay clause is FALSE for programs that contain a [distribute] whose destination wells share one
+    device position (the same well named twice, on either device; on a Fluent several virtual rows of one
+    trough column).  The call is accepted, the Labware objects receive one dispense per NAMED well, the R
+    record dispenses once per POSITION, and a later accepted call can take the replayed well below its
+    min_volume.  The replay theorems for [distribute] and for programs are therefore proved only under the
+    additional hypothesis [dst_positions_distinct] and carry the suffix [_partial].
 
     Definitions used (Proofs/RefinementProofs.v; see also Props/C01.v):
     [sim s rb]: the robot's racks correspond to the tracked labware (same frames, volumes [==]);
@@ -13,6 +21,10 @@
       every well the robot's volume lies between the tracked volume in [s0] and the tracked volume in [s1];
     [bounded_rec m r]: if [r] is an A or D record then 0 <= ad_volume <= m;
     [emits_bounded w w']: [w' = emit w new] for some [new] with [bounded_rec (w_max w)] for all of [new];
+    [bounded_rec_full m r] (Proofs/SafetyExtraProofs.v): [bounded_rec m r], and if [r] is an R record then
+      0 <= r_volume <= m and r_multi_disp * r_volume <= m (the volume aspirated for one round of
+      multi-dispenses fits into max_volume);
+    [emits_full w w']: as [emits_bounded] with [bounded_rec_full];
     [quiet r]: [r] is not an A, D or R record;
     [wl_op], [op_ok], [distribute_dev_ok], [dst_positions_distinct]: as in C01 (the Fluent restriction of
       distribute is known finding F12).
@@ -22,7 +34,7 @@
     records are a prefix of the updates the tracking has applied, and the replayed volume of every well
     equals a tracked intermediate volume that passed the check. *)
 From Robo Require Import Prelude Str Wells Utils Labware Tips Records Partition Params Worklist EvoCmd
-  Program Invariants Robot LabwareProofs RefinementProofs.
+  Program Invariants Robot LabwareProofs PlanProofs RefinementProofs SafetyExtraProofs.
 #[local] Open Scope Q_scope.
 
 (* ------------------------------------------------------------------ no step above max_volume *)
@@ -59,6 +71,33 @@ Theorem C03_steps_bounded : forall s ops, w_recs (st_wl s) = [] ->
 Proof. exact run_steps_bounded. Qed.
 Print Assumptions C03_steps_bounded.
 
+(** the same including the R records of [distribute] / [reagent_distribution]: per record, the volume of
+    one dispense is within [0, max_volume] and multi-dispense count * volume <= max_volume.  Every
+    operation of a program, whatever its outcome ... *)
+Theorem C03_step_emits_full : forall s o s' e, step s o = (s', e) -> emits_full (st_wl s) (st_wl s').
+Proof. exact step_full. Qed.
+Print Assumptions C03_step_emits_full.
+
+(** ... hence every record of every worklist reachable from an empty one: all calls accepted, some
+    rejected and the script continued, or stopped at the first exception ([ops] is any prefix) *)
+Theorem C03_steps_bounded_full : forall s ops, w_recs (st_wl s) = [] ->
+  w_max (st_wl (fst (run s ops))) = w_max (st_wl s) /\
+  Forall (bounded_rec_full (w_max (st_wl s))) (w_recs (st_wl (fst (run s ops)))).
+Proof. exact run_records_bounded_full. Qed.
+Print Assumptions C03_steps_bounded_full.
+
+(** ... and from a worklist that already holds bounded records *)
+Theorem C03_steps_bounded_full_from : forall s ops,
+  Forall (bounded_rec_full (w_max (st_wl s))) (w_recs (st_wl s)) ->
+  Forall (bounded_rec_full (w_max (st_wl s))) (w_recs (st_wl (fst (run s ops)))).
+Proof. exact run_records_bounded_full_from. Qed.
+Print Assumptions C03_steps_bounded_full_from.
+
+(** [bounded_rec_full] is [bounded_rec] plus the R case *)
+Theorem C03_bounded_full_weaken : forall m r, bounded_rec_full m r -> bounded_rec m r.
+Proof. exact bounded_rec_full_weaken. Qed.
+Print Assumptions C03_bounded_full_weaken.
+
 (** an oversized step is refused with InvalidOperationError and nothing is appended ([prepare_ad a None]:
     the arguments are acceptable when no max_volume is imposed) ... *)
 Theorem C03_no_split_refused : forall w a v f0, x_volume a = PV (XQ v) -> w_max w < v ->
@@ -76,6 +115,25 @@ Theorem C03_oversized_nothing : forall w a v, x_volume a = PV (XQ v) -> w_max w 
   exists e, aspirate_well w a = (w, Some e).
 Proof. exact aspirate_well_over_nothing. Qed.
 Print Assumptions C03_oversized_nothing.
+
+(** one pipetting pair of a transfer whose volume is above max_volume: the call fails (with whatever
+    exception comes first: the source labware is charged before the volume check) and the worklist is
+    unchanged *)
+Theorem C03_oversized_pair_nothing : forall s ks kd sw dw v ws kw, 0 < v -> w_max (st_wl s) < v ->
+  exists s1 e, exec_step s ks kd sw dw v ws kw = (s1, Some e) /\ st_wl s1 = st_wl s.
+Proof. exact exec_step_oversized. Qed.
+Print Assumptions C03_oversized_pair_nothing.
+
+(** a whole transfer without auto_split that contains a volume above max_volume is never accepted, and
+    what it has appended when it stops (the records of the pairs planned before the first oversized one)
+    is within max_volume; the full case analysis is [C06_no_split_refused_transfer] *)
+Theorem C03_no_split_transfer_not_accepted : forall s ks swells kd dwells vols label ws pb kw s' e v,
+  w_autosplit (st_wl s) = false -> In v (t_vol swells dwells vols) -> 0 < v -> w_max (st_wl s) < v ->
+  transfer s ks swells kd dwells vols label ws pb kw = (s', e) ->
+  e <> None /\
+  exists new, st_wl s' = emit (st_wl s) new /\ Forall (bounded_rec_full (w_max (st_wl s))) new.
+Proof. exact transfer_nosplit_not_accepted. Qed.
+Print Assumptions C03_no_split_transfer_not_accepted.
 
 (* ------------------------------------------------------------------ emitted only after the check: one call *)
 
@@ -134,15 +192,35 @@ Proof. exact transfer_replay. Qed.
 Print Assumptions C03_emit_after_check_transfer.
 
 (** [distribute], any outcome: the R record is written last, so a rejected call has appended at most
-    comment records and the robot still corresponds to the state BEFORE the call *)
-Theorem C03_emit_after_check_distribute : forall s ks kd dwells a s' e rb,
+    comment records and the robot still corresponds to the state BEFORE the call.
+
+    The full statement,
+      forall s ks kd dwells a s' e rb, good_state s -> sim s rb -> distribute_dev_ok s ks ->
+        distribute s ks kd dwells a = (s', e) ->
+        exists new rb', st_wl s' = emit (st_wl s) new /\ interp true (w_dev (st_wl s)) rb new = Some rb' /\
+          (e = None -> sim s' rb') /\ (e <> None -> sim s rb' /\ forallb quiet new = true),
+    is FALSE of the model and of the code (known finding F20, refuted below).  The theorem proved here adds
+    exactly one hypothesis, [dst_positions_distinct s kd dwells]: the device positions of the destination
+    well ids are pairwise distinct.  ([distribute_dev_ok] is the restriction of known finding F12.) *)
+Theorem C03_emit_after_check_distribute_partial : forall s ks kd dwells a s' e rb,
   good_state s -> sim s rb -> distribute_dev_ok s ks -> dst_positions_distinct s kd dwells ->
   distribute s ks kd dwells a = (s', e) ->
   exists new rb', st_wl s' = emit (st_wl s) new /\
     interp true (w_dev (st_wl s)) rb new = Some rb' /\
     (e = None -> sim s' rb') /\ (e <> None -> sim s rb' /\ forallb quiet new = true).
 Proof. exact distribute_replay. Qed.
-Print Assumptions C03_emit_after_check_distribute.
+Print Assumptions C03_emit_after_check_distribute_partial.
+
+(** F20, one call: an accepted [distribute] with all the hypotheses of the full statement; whatever the
+    appended records replay to, it is not the tracked state.  Witness: Fluent, source trough S (1 virtual
+    row, 1000), destination trough D (4 virtual rows, empty), distribute 20 to ["A01"; "B01"]: the record
+    is "R;S;;;1;1;D;;;1;1;20;W;1;1;0" (one dispense of 20 into position 1), the tracking holds 40 in D *)
+Theorem C03_emit_after_check_distribute_refuted : exists s ks kd dwells a s' rb,
+  good_state s /\ sim s rb /\ distribute_dev_ok s ks /\ distribute s ks kd dwells a = (s', None) /\
+  forall new rb', st_wl s' = emit (st_wl s) new ->
+    interp true (w_dev (st_wl s)) rb new = Some rb' -> ~ sim s' rb'.
+Proof. exact distribute_replay_duplicate_positions_refuted. Qed.
+Print Assumptions C03_emit_after_check_distribute_refuted.
 
 (** the unchecked replay follows from the checked one *)
 Theorem C03_checked_implies_unchecked : forall d recs rb rb',
@@ -153,15 +231,52 @@ Print Assumptions C03_checked_implies_unchecked.
 (* ------------------------------------------------------------------ programs: up to and including the first failure *)
 
 (** all calls of [ops0] accepted, then one more call with any outcome: what has been written so far
-    replays within the limits *)
-Theorem C03_prefix_safe : forall s0 ops0 o,
+    replays within the limits.
+
+    The full statement of C03 ("all operation sequences, all labware configurations, both devices"; only
+    the F12 restriction [distribute_dev_ok] on the source of a Fluent distribute is kept),
+      forall s0 ops0 o, good_state s0 -> w_recs (st_wl s0) = [] -> forallb wl_op (ops0 ++ [o]) = true ->
+        Forall (fun o => match o with ODistribute ks _ _ _ => distribute_dev_ok s0 ks | _ => True end)
+               (ops0 ++ [o]) ->
+        Forall (fun e => e = None) (snd (run s0 ops0)) ->
+        exists rb, interp true (w_dev (st_wl s0)) (robot_of (st_lw s0))
+                     (w_recs (st_wl (fst (run s0 (ops0 ++ [o]))))) = Some rb,
+    is FALSE of the model and of the code: known finding F20, refuted by the two theorems that follow.
+    The theorem proved here adds exactly one hypothesis: [op_ok s0 o] demands, besides [distribute_dev_ok],
+    [dst_positions_distinct s0 kd dwells] for every [ODistribute ks kd dwells a] of the program. *)
+Theorem C03_prefix_safe_partial : forall s0 ops0 o,
   good_state s0 -> w_recs (st_wl s0) = [] ->
   forallb wl_op (ops0 ++ [o]) = true -> Forall (op_ok s0) (ops0 ++ [o]) ->
   Forall (fun e => e = None) (snd (run s0 ops0)) ->
   exists rb, interp true (w_dev (st_wl s0)) (robot_of (st_lw s0))
                (w_recs (st_wl (fst (run s0 (ops0 ++ [o]))))) = Some rb.
 Proof. exact prefix_safe. Qed.
-Print Assumptions C03_prefix_safe.
+Print Assumptions C03_prefix_safe_partial.
+
+(** F20 on a Fluent.  State: source trough S (1 virtual row, 1000), destination trough D (4 virtual rows,
+    empty, min_volume 0).  Program: distribute 20 to ["A01"; "B01"] of D, then aspirate 30 from "A01" of D.
+    Both calls are accepted (the tracking holds 40, then 10, in D); the worklist is
+      R;S;;;1;1;D;;;1;1;20;W;1;1;0      (the Fluent numbering gives both virtual rows position 1)
+      A;D;;;1;;30.00;;;;
+    and replays D to 20 - 30 = -10: the checked interpreter refuses the A record. *)
+Theorem C03_prefix_safe_duplicate_positions_refuted : exists s0 ops,
+  good_state s0 /\ w_recs (st_wl s0) = [] /\ forallb wl_op ops = true /\
+  Forall (fun o => match o with ODistribute ks _ _ _ => distribute_dev_ok s0 ks | _ => True end) ops /\
+  Forall (fun e => e = None) (snd (run s0 ops)) /\
+  interp true (w_dev (st_wl s0)) (robot_of (st_lw s0)) (w_recs (st_wl (fst (run s0 ops)))) = None.
+Proof. exact prefix_safe_duplicate_positions_refuted. Qed.
+Print Assumptions C03_prefix_safe_duplicate_positions_refuted.
+
+(** F20 on an EVO, where [distribute_dev_ok] holds for every call: distribute 20 from the trough T4 to the
+    plate well "A02" named twice, then aspirate 30 from "A02": records "R;T4;;;1;4;big;;;3;3;20;W;1;1;0" and
+    "A;big;;;3;;30.00;;;;", tracked A02 = 10, replayed A02 = -10 *)
+Theorem C03_prefix_safe_duplicate_positions_refuted_evo : exists s0 ops,
+  good_state s0 /\ w_dev (st_wl s0) = Evo /\ w_recs (st_wl s0) = [] /\ forallb wl_op ops = true /\
+  Forall (fun o => match o with ODistribute ks _ _ _ => distribute_dev_ok s0 ks | _ => True end) ops /\
+  Forall (fun e => e = None) (snd (run s0 ops)) /\
+  interp true (w_dev (st_wl s0)) (robot_of (st_lw s0)) (w_recs (st_wl (fst (run s0 ops)))) = None.
+Proof. exact prefix_safe_duplicate_positions_refuted_evo. Qed.
+Print Assumptions C03_prefix_safe_duplicate_positions_refuted_evo.
 
 (* ------------------------------------------------------------------ non-vacuity *)
 
@@ -209,3 +324,53 @@ Example C03_example_no_split :
   let r := run s [OTransfer 0 (A1 ["A01"]) 0 (A1 ["A02"]) (A1 [1000]%Q) None SFlush "auto" kw_default] in
   snd r = [Some EInvalidOp] /\ w_recs (st_wl (fst r)) = [].
 Proof. vm_compute. split; reflexivity. Qed.
+
+(** F20, the two witnesses in full: outcomes, rendered worklist, tracked volumes, checked replay (refused)
+    and unchecked replay (a negative volume) *)
+Example C03_example_F20_fluent :
+  let r := run dup_state dup_prog in
+  snd r = [None; None] /\
+  map render (w_recs (st_wl (fst r))) = ["R;S;;;1;1;D;;;1;1;20;W;1;1;0"; "A;D;;;1;;30.00;;;;"] /\
+  map lw_vols (st_lw (fst r)) = [[960]; [10]]%Q /\
+  interp true Fluent (robot_of (st_lw dup_state)) (w_recs (st_wl (fst r))) = None /\
+  match interp false Fluent (robot_of (st_lw dup_state)) (w_recs (st_wl (fst r))) with
+  | Some rb => map rk_vols (rb_racks rb) = [[980]; [-10]]%Q
+  | None => False
+  end.
+Proof. vm_compute. repeat split; reflexivity. Qed.
+
+Example C03_example_F20_evo :
+  let r := run (ex_state Evo) dup_prog_evo in
+  snd r = [None; None] /\
+  map render (w_recs (st_wl (fst r))) = ["R;T4;;;1;4;big;;;3;3;20;W;1;1;0"; "A;big;;;3;;30.00;;;;"] /\
+  map lw_vols (st_lw (fst r)) = [[3000; 10; 100; 0]; [460; 500]]%Q /\
+  interp true Evo (robot_of (st_lw (ex_state Evo))) (w_recs (st_wl (fst r))) = None /\
+  match interp false Evo (robot_of (st_lw (ex_state Evo))) (w_recs (st_wl (fst r))) with
+  | Some rb => map rk_vols (rb_racks rb) = [[3000; -10; 100; 0]; [480; 500]]%Q
+  | None => False
+  end.
+Proof. vm_compute. repeat split; reflexivity. Qed.
+
+(** the hypotheses of [C03_prefix_safe_partial] are satisfiable by a program with a distribute (distinct
+    destination positions), and the R record it writes is within max_volume *)
+Example C03_example_distribute_ok :
+  let p := [ODistribute 1 0 (A1 ["A02"; "B02"]) (ex_dargs 0 20);
+            OAspirate 0 (A1 ["A02"]) (A1 [XQ 15]) None kw_default] in
+  forallb wl_op p = true /\ snd (run (ex_state Evo) p) = [None; None] /\
+  map render (w_recs (st_wl (fst (run (ex_state Evo) p))))
+    = ["R;T4;;;1;4;big;;;3;4;20;W;1;1;0"; "A;big;;;3;;15.00;;;;"] /\
+  match interp true Evo (robot_of (st_lw (ex_state Evo))) (w_recs (st_wl (fst (run (ex_state Evo) p)))) with
+  | Some rb => map rk_vols (rb_racks rb) = [[3000; 5; 100; 20]; [460; 500]]%Q
+  | None => False
+  end.
+Proof. vm_compute. repeat split; reflexivity. Qed.
+
+Example C03_example_distribute_ok_hyps :
+  Forall (op_ok (ex_state Evo))
+    [ODistribute 1 0 (A1 ["A02"; "B02"]) (ex_dargs 0 20);
+     OAspirate 0 (A1 ["A02"]) (A1 [XQ 15]) None kw_default].
+Proof.
+  constructor; [|constructor; [exact I|constructor]]. split; [left; reflexivity|].
+  intros Ld ps HLd Hps. cbn in HLd. injection HLd as <-. vm_compute in Hps. injection Hps as <-.
+  constructor; [intros [C|[]]; discriminate|constructor; [intros []|constructor]].
+Qed.
